@@ -79,3 +79,22 @@ package config
 //@   ensures cmd == "enum:unknown" && !parse.StringOK(rest) ==> err != nil
 //@   ensures cmd == "arg:context:regex" ==> unchangedExcept(c, "ArgContextRegex") && !fieldSetting
 //@   ensures cmd == "arg:context:regex" && !parse.StringOK(rest) ==> err != nil
+
+// ---- C09 ----
+//@ func parseMethods
+//@   props C09
+//@   maprange 2 unordered-result names
+
+//@ func getPackages
+//@   props C09
+//@   maprange 3 unordered-result pkgs
+
+// registerMethodLines only inserts package paths that are a function of its arguments (it never reads or
+// deletes from lookup). Stated with a ghost set; ASSUMED (trusted), listed in the evidence.
+//@ ghost MethodLinePkgs(sourcePackage string, lines RawLines) map[string]bool
+//@ func registerMethodLines
+//@   props C09
+//@   trusted
+//@   requires lookup != nil
+//@   assigns map(lookup)
+//@   ensures forall k string :: has(lookup, k) == (old(has(lookup, k)) || has(MethodLinePkgs(sourcePackage, lines), k))
